@@ -26,11 +26,13 @@ type Event struct {
 	G      int64  `json:"g"`
 	Stream string `json:"s"` // "out" | "err"
 	Data   string `json:"d"`
+	PG     int64  `json:"pg"` // goroutine that created G (0 if unknown)
 }
 
 type Parked struct {
 	ID      int
 	G       int64
+	PG      int64
 	Stream  string
 	Data    []byte
 	release chan struct{}
@@ -77,18 +79,41 @@ func curG() int64 {
 	return g
 }
 
+var creatorRe = regexp.MustCompile(`in goroutine (\d+)\n`)
+
+// curGAndCreator returns the current goroutine id and the id of the goroutine that created it.
+var stackPool = sync.Pool{New: func() any { b := make([]byte, 32<<10); return &b }}
+
+func curGAndCreator() (int64, int64) {
+	bp := stackPool.Get().(*[]byte)
+	defer stackPool.Put(bp)
+	buf := *bp
+	n := runtime.Stack(buf, false)
+	m := gidRe.FindSubmatch(buf[:n])
+	if m == nil {
+		return -1, 0
+	}
+	g, _ := strconv.ParseInt(string(m[1]), 10, 64)
+	var pg int64
+	if all := creatorRe.FindAllSubmatch(buf[:n], -1); len(all) > 0 {
+		pg, _ = strconv.ParseInt(string(all[len(all)-1][1]), 10, 64)
+	}
+	return g, pg
+}
+
 func (w *gateWriter) Write(p []byte) (int, error) {
 	c := w.c
-	pk := &Parked{G: curG(), Stream: w.stream, Data: append([]byte(nil), p...), release: make(chan struct{})}
+	g, pg := curGAndCreator()
+	pk := &Parked{G: g, PG: pg, Stream: w.stream, Data: append([]byte(nil), p...), release: make(chan struct{})}
 	c.mu.Lock()
 	pk.ID = c.nextID
 	c.nextID++
 	if c.AutoRelease != nil && c.AutoRelease(w.stream, p) {
-		c.Events = append(c.Events, Event{"arrive", pk.ID, pk.G, pk.Stream, string(pk.Data)}, Event{"release", pk.ID, pk.G, pk.Stream, ""})
+		c.Events = append(c.Events, Event{"arrive", pk.ID, pk.G, pk.Stream, string(pk.Data), pk.PG}, Event{"release", pk.ID, pk.G, pk.Stream, "", pk.PG})
 		c.mu.Unlock()
 		return len(p), nil
 	}
-	c.Events = append(c.Events, Event{"arrive", pk.ID, pk.G, pk.Stream, string(pk.Data)})
+	c.Events = append(c.Events, Event{"arrive", pk.ID, pk.G, pk.Stream, string(pk.Data), pk.PG})
 	c.parked = append(c.parked, pk)
 	c.mu.Unlock()
 	<-pk.release
@@ -215,7 +240,7 @@ func (c *Controller) Run(fn func() error, ch Chooser) Result {
 		i := ch.Choose(c.parked)
 		pk := c.parked[i]
 		c.parked = append(c.parked[:i:i], c.parked[i+1:]...)
-		c.Events = append(c.Events, Event{"release", pk.ID, pk.G, pk.Stream, ""})
+		c.Events = append(c.Events, Event{"release", pk.ID, pk.G, pk.Stream, "", pk.PG})
 		c.mu.Unlock()
 		close(pk.release)
 	}
